@@ -3,7 +3,9 @@ package gorums
 import (
 	"context"
 	"net"
+	"strings"
 	"sync"
+	"unicode/utf8"
 
 	"github.com/relab/gorums/ordering"
 	"google.golang.org/grpc"
@@ -52,7 +54,15 @@ func WrapMessage(md *ordering.Metadata, resp protoreflect.ProtoMessage, err erro
 	if !ok {
 		errStatus = status.New(codes.Unknown, err.Error())
 	}
-	md.Status = errStatus.Proto()
+	st := errStatus.Proto()
+	if st != nil && !utf8.ValidString(st.Message) {
+		// Status.message is a proto3 string: with text that is not valid UTF-8
+		// this reply could not be marshaled, and the failed send would end the
+		// stream for every call of the client. Keep the code and the details,
+		// and replace the invalid bytes of the text.
+		st.Message = strings.ToValidUTF8(st.Message, "\uFFFD")
+	}
+	md.Status = st
 	return &Message{Metadata: md, Message: resp}
 }
 
